@@ -60,8 +60,32 @@ pub fn err_text(e: &Error) -> String
     }
 }
 
+/// USER-DEFINED gates (harness/src/gate.rs: structs that only provide `matrix()`, so that every `apply*` route is the
+/// default of the `Gate` trait; non-symmetric basis permutations), bare and inside the library's combinators.
+/// (name, number of qubits)
+pub const USER_GATES: [(&str, usize); 11] = [("Inc2", 2), ("Inc3", 3), ("Inc4", 4), ("CInc2", 3), ("CInc3", 4), ("KronXInc2", 3),
+    ("KronXInc3", 4), ("KronInc2X", 3), ("KronInc3X", 4), ("CompXInc3", 4), ("LoopInc3", 3)];
+
+pub fn is_user_gate(g: &str) -> bool { USER_GATES.iter().any(|(n, _)| *n == g) }
+
+fn user_gate(g: &str) -> Option<q1t_harness::gate::Dyn>
+{
+    let term = match g
+    {
+        "Inc2" => "Inc2", "Inc3" => "Inc3", "Inc4" => "Inc4",
+        "CInc2" => "C Inc2", "CInc3" => "C Inc3",
+        "KronXInc2" => "Kron X Inc2", "KronXInc3" => "Kron X Inc3",
+        "KronInc2X" => "Kron Inc2 X", "KronInc3X" => "Kron Inc3 X",
+        "CompXInc3" => "Comp incx 4 2 X 1 3 Inc3 3 1 2 0",
+        "LoopInc3" => "Loop l 2 u 3 1 Inc3 3 2 0 1",
+        _ => return None
+    };
+    Some(q1t_harness::gate::parse_str(term))
+}
+
 fn add_named_gate(c: &mut Circuit, g: &str, bits: &[usize]) -> Result<(), Error>
 {
+    if let Some(d) = user_gate(g) { return c.add_gate(d, bits); }
     match g
     {
         "X" => c.add_gate(X::new(), bits),
@@ -79,6 +103,7 @@ fn add_named_gate(c: &mut Circuit, g: &str, bits: &[usize]) -> Result<(), Error>
 
 fn add_named_cond(c: &mut Circuit, control: &[usize], target: u64, g: &str, bits: &[usize]) -> Result<(), Error>
 {
+    if let Some(d) = user_gate(g) { return c.add_conditional_gate(control, target, d, bits); }
     match g
     {
         "X" => c.add_conditional_gate(control, target, X::new(), bits),
@@ -144,6 +169,51 @@ pub fn run_circuit(vector: bool, nq: usize, nc: usize, shots: usize, ops: &[Op],
         }
     });
     match r { Ok(o) => o, Err(_) => { let _ = trace_take(); Outcome::Panic } }
+}
+
+/// "Executed again on the same object": build the circuit, execute it once with `first_seed` on the representation
+/// `first_vector` (same number of shots, not traced), then execute the SAME `Circuit` object again with `seed` on `vector`,
+/// recording the trace of this second run.
+pub fn run_circuit_again(vector: bool, first_vector: bool, nq: usize, nc: usize, shots: usize, ops: &[Op], first_seed: u64, seed: u64) -> Outcome
+{
+    let ops = ops.to_vec();
+    let r = std::panic::catch_unwind(move || {
+        let mut c = Circuit::new(nq, nc);
+        for op in ops.iter()
+        {
+            if let Err(e) = add_op(&mut c, op) { return Outcome::BuildErr(err_text(&e)); }
+        }
+        let mk = |v: bool| if v { QuStateRepr::vector(nq, shots) } else { QuStateRepr::stabilizer(nq, shots) };
+        let mut rng1 = rand::rngs::StdRng::seed_from_u64(first_seed);
+        if let Err(e) = c.execute_with(shots, &mut rng1, mk(first_vector)) { return Outcome::RunErr(err_text(&e)); }
+        let mut rng = rand::rngs::StdRng::seed_from_u64(seed);
+        trace_start();
+        let res = c.execute_with(shots, &mut rng, mk(vector));
+        let trace = trace_take();
+        match res
+        {
+            Err(e) => Outcome::RunErr(err_text(&e)),
+            Ok(()) => Outcome::Done { circuit: c, trace: trace }
+        }
+    });
+    match r { Ok(o) => o, Err(_) => { let _ = trace_take(); Outcome::Panic } }
+}
+
+/// The classical bits written by `ops` (measure, measure_all, peek, peek_all), as a mask.  `execute*` starts from a zeroed
+/// register, so at any point of a run every bit outside the mask of the operations executed so far is 0.
+pub fn written_mask(ops: &[Op]) -> u64
+{
+    let mut m = 0u64;
+    for op in ops
+    {
+        match op
+        {
+            Op::Measure(_, c) | Op::Peek(_, c) => { if *c < 64 { m |= 1u64 << *c; } },
+            Op::MeasureAll(cs) | Op::PeekAll(cs) => { for c in cs { if *c < 64 { m |= 1u64 << *c; } } },
+            _ => {}
+        }
+    }
+    m
 }
 
 /// `h k:c ..` sorted by key, `v ..` (or `v -` when `nc > vec_max`), `s key:c ..` sorted by key.
